@@ -80,6 +80,9 @@ struct ClientEnd {
     up_disconnect_forwarded: bool,
     /// a datagram of this client reached the relay's front address (it has moved on from a silent first address)
     seen_at_front: bool,
+    /// the token's first address cannot even be sent to (IPv6 from an IPv4 socket): nothing the client emits is observable until it
+    /// has moved on to the server's address
+    unreachable_first: bool,
     /// a disconnect datagram went to the silent address after the client had moved on to the real one
     misdirected_disconnect: bool,
     // message model: [direction][channel] ; direction 0 = client->server
@@ -107,6 +110,11 @@ struct Net {
     /// development mode of both transports: ServerAuthentication::Unsecure / ClientAuthentication::Unsecure (tokens made by the
     /// client itself: 15 s timeout, the one server address)
     unsecure: bool,
+    /// 'aged' sessions: the message layer's packet counters start at 2^40 (as after a very long session), so full slices make
+    /// datagrams of up to 1236 bytes
+    aged: bool,
+    /// the server's part of the next tick is given this duration instead of the tick length (a frame that took very long)
+    server_dt_once: Option<Duration>,
     timeout_s: u64,
     tick_ms: u64,
     /// server events per id: true = currently connected according to the event stream
@@ -128,10 +136,13 @@ enum Op {
     Spawn { id: u64 },
     Poison { client: usize, to_client: bool, unknown_channel: bool },
     SetLimit { to: usize },
+    ServerLongFrame { ms: u64 },
 }
 
 impl Net {
-    fn spawn(&mut self, id: u64, silent_first_address: bool) -> Result<usize, Fail> {
+    /// `first_address`: 0 = the server's address only; 1 = a silent IPv4 socket listed first; 2 = an IPv6 address listed first, which
+    /// the client's IPv4 socket cannot even send to (send_to fails until the client moves on)
+    fn spawn(&mut self, id: u64, first_address: u8) -> Result<usize, Fail> {
         let csock = sock()?;
         let addr = csock.local_addr().unwrap();
         let back = sock()?;
@@ -140,11 +151,18 @@ impl Net {
         let auth = if self.unsecure {
             ClientAuthentication::Unsecure { protocol_id: PROTO, client_id: id, server_addr: self.front_addr, user_data: Some(ud) }
         } else {
-            let token = ConnectToken::generate(self.now, PROTO, 600, id, self.timeout_s as i32, if silent_first_address { vec![self.dead_addr, self.front_addr] } else { vec![self.front_addr] }, Some(&ud), &key(1)).map_err(|e| Fail::new("token", e.to_string()))?;
+            let token = ConnectToken::generate(self.now, PROTO, 600, id, self.timeout_s as i32, match first_address {
+                1 => vec![self.dead_addr, self.front_addr],
+                2 => vec!["[::1]:9".parse().unwrap(), self.front_addr],
+                _ => vec![self.front_addr],
+            }, Some(&ud), &key(1)).map_err(|e| Fail::new("token", e.to_string()))?;
             ClientAuthentication::Secure { connect_token: token }
         };
         let transport = NetcodeClientTransport::new(self.now, auth, csock).map_err(|e| Fail::new("client_transport", e.to_string()))?;
-        let client = RenetClient::new(stack_config(false));
+        let mut client = RenetClient::new(stack_config(false));
+        if self.aged {
+            client.verif_set_packet_sequence(1 << 40);
+        }
         self.clients.push(ClientEnd {
             id,
             transport,
@@ -171,6 +189,7 @@ impl Net {
             last_genuine_down: self.tick,
             up_disconnect_forwarded: false,
             seen_at_front: false,
+            unreachable_first: first_address == 2,
             misdirected_disconnect: false,
             sent: Default::default(),
             got_ordered: [0; 2],
@@ -393,6 +412,11 @@ impl Net {
                     if !self.clients.iter().any(|c| c.id == client_id) && !(client_id == LOCAL_ID && self.local.is_some()) {
                         return Err(Fail::new("event_unknown_id", format!("ClientConnected for id {client_id} which no client holds a token for")));
                     }
+                    if self.aged && client_id != LOCAL_ID {
+                        if let Some(c) = self.server.verif_connection_mut(client_id) {
+                            c.verif_set_packet_sequence(1 << 40);
+                        }
+                    }
                     if self.ev_open.insert(client_id, true) == Some(true) {
                         return Err(Fail::new("event_double_connect", format!("two ClientConnected events for id {client_id} without a disconnect between them")));
                     }
@@ -403,9 +427,10 @@ impl Net {
                         return Err(Fail::new("event_disconnect_without_connect", format!("ClientDisconnected({reason:?}) for id {client_id} which was not connected")));
                     }
                     if self.gentle {
+                        let states: Vec<String> = self.clients.iter().map(|c| format!("id {}: renet {:?} / netcode {:?}", c.id, c.client.disconnect_reason(), c.transport.disconnect_reason())).collect();
                         return Err(Fail::new(
                             "healthy_session_disconnected",
-                            format!("server reported id {client_id} disconnected ({reason:?}) in a case without any disconnect operation where genuine datagrams kept flowing in both directions"),
+                            format!("server reported id {client_id} disconnected ({reason:?}) in a case without any disconnect operation where genuine datagrams kept flowing in both directions; client objects: {states:?}"),
                         ));
                     }
                     if matches!(reason, DisconnectReason::ReceiveChannelError { .. } | DisconnectReason::ReceivedInvalidChannelId(_)) {
@@ -465,13 +490,14 @@ impl Net {
                 // the client's message layer ended the session while receiving: its transport must announce it at its next update
                 ctx.label("client_msg_layer_disconnect");
                 c.disconnect_decided = true;
-                if c.silence == 0 {
+                if c.silence == 0 && (!c.unreachable_first || c.seen_at_front) {
                     c.expect_dgram_up_by = Some(self.tick + 2);
                 }
             }
         }
         self.relay(ctx);
-        // server: receive, update clients, push renet disconnects down
+        // server: receive, update clients, push renet disconnects down (its frame may have taken much longer than the clients')
+        let dt = self.server_dt_once.take().unwrap_or(dt);
         self.server.update(dt);
         if let Some(l) = self.local.as_mut() {
             l.update(dt);
@@ -487,6 +513,11 @@ impl Net {
                 return Err(Fail::new("transport_reports_wouldblock", format!("NetcodeServerTransport::update returned {e} although its socket only had nothing more to read")));
             }
             return Err(Fail::new("server_transport_error", e.to_string()).sig("harness_io"));
+        }
+        if std::env::var("RV_DEBUG").is_ok() {
+            for c in self.clients.iter() {
+                eprintln!("tick {} id {} held={:?} since={:?} client_connected={} raw_up={} hist_up={} hist_down={}", self.tick, c.id, self.st.client_addr(c.id), self.st.time_since_last_received_packet(c.id), c.client.is_connected(), c.raw_up.len(), c.hist_up.len(), c.hist_down.len());
+            }
         }
         self.events(ctx)?;
         // lock-step right after the server transport's update
@@ -576,7 +607,7 @@ impl Property for C20 {
         "fault_enumeration"
     }
     fn rule(&self) -> String {
-        "A case runs the real NetcodeServerTransport and 1-3 NetcodeClientTransports (secure authentication with generated tokens, or in some cases the Unsecure development mode of both transports) (plus reconnecting client objects with new tokens; some tokens list a silent address before the real one, so the client fails over first) on loopback UDP sockets through an in-path relay that the harness thread pumps after every transport call. Relay fault decision per (client, direction, datagram): forward / drop / duplicate / delay 1-6 ticks (hence reorder) / flip one bit / forward and replay an old datagram of that link; whole-silence periods; application traffic on all three default channels in both directions and broadcasts; disconnects decided by RenetClient::disconnect, NetcodeClientTransport::disconnect, RenetServer::disconnect, NetcodeServerTransport::disconnect_all, by silence (timeouts) and by the receiving message layer itself while it processes a datagram (a peer sends more than the receiver's budget of the extra channel 3, or on a channel only the sender knows); reconnects; the client limit raised and lowered at run time; in some cases a local (in-process) client connected to the same RenetServer. Oracles: right after every NetcodeServerTransport::update the ids the message layer reports connected equal the ids the netcode layer holds (client_addr, connected_clients), no disconnected connection is left, and equal the ids open in the ServerEvent stream, which alternates per id and only names ids that hold a token; every message obtained over the full stack satisfies the ordered-prefix / unordered-at-most-once / unreliable-membership oracles of its session; after the faults stop and timeout + 3 s of fault-free ticks every session for which a disconnect was decided anywhere has ended on both sides, and every session that stayed healthy has obtained all reliable messages; in 'gentle' cases (no disconnect operation, no silence, at least one genuine datagram per direction forwarded in every third of the timeout) nobody is ever disconnected whatever else the relay does, and at the end every client is connected in both layers on both sides; a transport update never reports 'nothing more to read' (WouldBlock) as an error. Non-trivial: at least one corrupted or replayed datagram after a handshake completed and at least one relay fault. Distinct = hash of the decoded operation trace.".into()
+        "A case runs the real NetcodeServerTransport and 1-3 NetcodeClientTransports (secure authentication with generated tokens, or in some cases the Unsecure development mode of both transports) (plus reconnecting client objects with new tokens; some tokens list a silent address before the real one, so the client fails over first) on loopback UDP sockets through an in-path relay that the harness thread pumps after every transport call. Relay fault decision per (client, direction, datagram): forward / drop / duplicate / delay 1-6 ticks (hence reorder) / flip one bit / forward and replay an old datagram of that link; whole-silence periods; application traffic on all three default channels in both directions and broadcasts; disconnects decided by RenetClient::disconnect, NetcodeClientTransport::disconnect, RenetServer::disconnect, NetcodeServerTransport::disconnect_all, by silence (timeouts) and by the receiving message layer itself while it processes a datagram (a peer sends more than the receiver's budget of the extra channel 3, or on a channel only the sender knows); reconnects; the client limit raised and lowered at run time; in some cases a local (in-process) client connected to the same RenetServer; 'aged' cases start the message layer's packet counters at 2^40 so that full slices make the largest datagrams; messages are also submitted while the handshake still runs; a second client object of a connected id may start while the first is alive; single server frames longer than the timeout. Oracles: right after every NetcodeServerTransport::update the ids the message layer reports connected equal the ids the netcode layer holds (client_addr, connected_clients), no disconnected connection is left, and equal the ids open in the ServerEvent stream, which alternates per id and only names ids that hold a token; every message obtained over the full stack satisfies the ordered-prefix / unordered-at-most-once / unreliable-membership oracles of its session; after the faults stop and timeout + 3 s of fault-free ticks every session for which a disconnect was decided anywhere has ended on both sides, and every session that stayed healthy has obtained all reliable messages; in 'gentle' cases (no disconnect operation, no silence, at least one genuine datagram per direction forwarded in every third of the timeout) nobody is ever disconnected whatever else the relay does, and at the end every client is connected in both layers on both sides; a transport update never reports 'nothing more to read' (WouldBlock) as an error. Non-trivial: at least one corrupted or replayed datagram after a handshake completed and at least one relay fault. Distinct = hash of the decoded operation trace.".into()
     }
     fn assumptions(&self) -> Vec<String> {
         vec![
@@ -589,7 +620,7 @@ impl Property for C20 {
         PbtCfg { cases: tier.pick(15_000, 300_000), max_len: tier.pick(1200, 5000), shrink_ms: 120_000 }
     }
     fn required_labels(&self) -> Vec<&'static str> {
-        vec!["relay_corrupt", "relay_replay", "relay_drop", "relay_dup", "relay_delay", "client_disconnect", "transport_disconnect", "server_disconnect", "disconnect_all", "timeout_by_silence", "gentle_case", "reconnect", "event_connected", "event_disconnected", "e2e_messages", "poison_to_client", "poison_to_server", "server_msg_layer_disconnect", "client_msg_layer_disconnect", "silent_first_address", "unsecure_authentication", "local_client", "limit_changed"]
+        vec!["relay_corrupt", "relay_replay", "relay_drop", "relay_dup", "relay_delay", "client_disconnect", "transport_disconnect", "server_disconnect", "disconnect_all", "timeout_by_silence", "gentle_case", "reconnect", "event_connected", "event_disconnected", "e2e_messages", "poison_to_client", "poison_to_server", "server_msg_layer_disconnect", "client_msg_layer_disconnect", "silent_first_address", "unsecure_authentication", "local_client", "limit_changed", "aged_counters", "unreachable_first_address", "second_object_same_id", "sent_while_connecting", "server_long_frame"]
     }
     fn run_choices(&self, ctx: &mut Ctx) -> Outcome {
         renetcode::verif::set_rng_seed(Some(ctx.src.u16() as u64 | 1));
@@ -600,6 +631,10 @@ impl Property for C20 {
         let dead = sock()?;
         let dead_addr = dead.local_addr().unwrap();
         let now = Duration::from_secs(500);
+        let aged = ctx.src.chance(60);
+        if aged {
+            ctx.label("aged_counters");
+        }
         let unsecure = ctx.src.chance(20);
         // unsecure clients make their own token: the timeout is fixed at 15 s
         let timeout_s = if unsecure { 15 } else { ctx.src.pick(&[3u64, 2, 5]) };
@@ -631,6 +666,8 @@ impl Property for C20 {
             faults: true,
             gentle,
             unsecure,
+            aged,
+            server_dt_once: None,
             timeout_s,
             tick_ms,
             ev_open: BTreeMap::new(),
@@ -644,21 +681,31 @@ impl Property for C20 {
             ctx.label("local_client");
         }
         let n0 = 1 + ctx.src.below(3);
-        ctx.op(&(n0, timeout_s, tick_ms, gentle, unsecure));
+        ctx.op(&(n0, timeout_s, tick_ms, gentle, unsecure, aged));
         for i in 0..n0 {
             // some tokens list a silent address first: the client connects to the real one only after failing over
             let silent_first = !unsecure && timeout_s <= 3 && ctx.src.chance(40);
-            if silent_first {
+            let kind = if !silent_first {
+                0
+            } else if ctx.src.chance(90) {
+                ctx.label("unreachable_first_address");
+                2
+            } else {
                 ctx.label("silent_first_address");
-            }
-            net.spawn(900 + i as u64, silent_first)?;
+                1
+            };
+            net.spawn(900 + i as u64, kind)?;
         }
         let max_ops = ctx.tier.pick(250, 1200);
         let mut ops = 0;
         let mut serial = 0u32;
         while !ctx.src.exhausted() && ops < max_ops {
             ops += 1;
-            let w: [u32; 10] = if gentle { [60, 30, 4, 0, 0, 0, 0, 0, 0, 2] } else { [60, 30, 4, 3, 3, 1, 3, 3, 3, 2] };
+            let w: [u32; 11] = if gentle { [60, 30, 4, 0, 0, 0, 0, 0, 0, 2, 2] } else { [60, 30, 4, 3, 3, 1, 3, 3, 3, 2, 2] };
+            let kind_dbg = ctx.src.clone().weighted(&w);
+            if std::env::var("RV_DEBUG").is_ok() {
+                eprintln!("op kind {kind_dbg} at tick {}", net.tick);
+            }
             let op = match ctx.src.weighted(&w) {
                 0 => {
                     net.do_tick(ctx)?;
@@ -679,8 +726,12 @@ impl Property for C20 {
                             net.clients[ci].sent[1][ch as usize].push(m);
                             ctx.label("e2e_messages");
                         }
-                    } else if net.clients[ci].client.is_connected() {
+                    } else if !net.clients[ci].client.is_disconnected() {
+                        // also while the handshake is still running: the message waits in its channel (reliable) or is lost (unreliable)
                         let c = &mut net.clients[ci];
+                        if !c.client.is_connected() {
+                            ctx.label("sent_while_connecting");
+                        }
                         c.client.send_message(ch, m.clone());
                         c.sent[0][ch as usize].push(m);
                         ctx.label("e2e_messages");
@@ -717,7 +768,7 @@ impl Property for C20 {
                         c.client.disconnect();
                         ctx.label("client_disconnect");
                     }
-                    if live && c.silence == 0 {
+                    if live && c.silence == 0 && (!c.unreachable_first || c.seen_at_front) {
                         c.expect_dgram_up_by = Some(tick + 2);
                     }
                     c.disconnect_decided = true;
@@ -769,6 +820,41 @@ impl Property for C20 {
                     }
                     Op::Silence { client: ci, ticks }
                 }
+                10 => {
+                    // one server frame that takes longer than the session timeout while the clients keep their pace: the datagrams
+                    // waiting in its socket are read in that very update, so nobody has been silent. The tick before and the long
+                    // one run without relay faults (what waits in the socket must really have been sent).
+                    let ms = timeout_s * 1000 + ctx.src.pick(&[700u64, 100, 2500]);
+                    // every session the server holds must have something on its way: only possible when its client is connected too
+                    // (a client still waiting for the accepting keep-alive sends nothing the server would count)
+                    let all_up = net.clients.iter().all(|c| net.st.client_addr(c.id) != Some(c.back_addr) || (c.client.is_connected() && c.silence == 0));
+                    if !all_up {
+                        continue;
+                    }
+                    for ci in 0..net.clients.len() {
+                        if net.st.client_addr(net.clients[ci].id) == Some(net.clients[ci].back_addr) {
+                            serial += 1;
+                            let m = make_content(ci, false, 2, serial, 24, 0);
+                            let c = &mut net.clients[ci];
+                            c.client.send_message(2, m.clone());
+                            c.sent[0][2].push(m);
+                        }
+                    }
+                    let held_before: Vec<bool> = net.clients.iter().map(|c| net.st.client_addr(c.id) == Some(c.back_addr)).collect();
+                    let faults = net.faults;
+                    net.faults = false;
+                    net.do_tick(ctx)?;
+                    // a handshake that completed on the server during that tick belongs to a client that has not sent anything yet
+                    let held_after: Vec<bool> = net.clients.iter().map(|c| net.st.client_addr(c.id) == Some(c.back_addr)).collect();
+                    let still_all_up = held_after == held_before && net.clients.iter().all(|c| net.st.client_addr(c.id) != Some(c.back_addr) || (c.client.is_connected() && c.silence == 0));
+                    if still_all_up {
+                        net.server_dt_once = Some(Duration::from_millis(ms));
+                        net.do_tick(ctx)?;
+                        ctx.label("server_long_frame");
+                    }
+                    net.faults = faults;
+                    Op::ServerLongFrame { ms: if still_all_up { ms } else { 0 } }
+                }
                 9 => {
                     // the client limit changed at run time: nobody is disconnected by that (in gentle cases it stays large enough for
                     // everybody, so that every handshake can still complete)
@@ -809,11 +895,17 @@ impl Property for C20 {
                     if net.clients.len() < 6 {
                         let id = 900 + ctx.src.below(4) as u64;
                         let busy = net.clients.iter().any(|c| c.id == id && !c.client.is_disconnected());
-                        if !busy {
+                        // now and then the same player starts a second client object while the first is still alive (a second device,
+                        // a restarted program): it can only get in once the first session is over
+                        let second_device = busy && ctx.src.chance(120);
+                        if second_device {
+                            ctx.label("second_object_same_id");
+                        }
+                        if !busy || second_device {
                             if net.clients.iter().any(|c| c.id == id) {
                                 ctx.label("reconnect");
                             }
-                            net.spawn(id, false)?;
+                            net.spawn(id, 0)?;
                         }
                         Op::Spawn { id }
                     } else {
@@ -858,10 +950,10 @@ impl Property for C20 {
                         format!("a disconnect was decided for client object {ci} (id {}) but its RenetClient is still {} after {} fault-free ticks", c.id, if c.client.is_connected() { "connected" } else { "connecting" }, heal_ticks),
                     ));
                 }
-                if newest && net.server.is_connected(c.id) && c.client.is_disconnected() {
+                if net.server.is_connected(c.id) && net.st.client_addr(c.id) == Some(c.back_addr) && c.client.is_disconnected() {
                     return Err(Fail::new("disconnect_not_propagated_to_server", format!("client object {ci} (id {}) is disconnected but the server still reports the id connected after {heal_ticks} fault-free ticks", c.id)));
                 }
-            } else if newest && c.client.is_connected() && net.server.is_connected(c.id) {
+            } else if c.client.is_connected() && net.server.is_connected(c.id) && net.st.client_addr(c.id) == Some(c.back_addr) {
                 // healthy session: everything reliable arrived
                 for dir in 0..2 {
                     if c.got_ordered[dir] != c.sent[dir][2].len() {
